@@ -27,6 +27,31 @@ fn show(o: &Out) -> String {
     format!("[{}]{}", w.join(", "), o.text.as_ref().map(|t| format!(" {:?}", t)).unwrap_or_default())
 }
 
+/// The padded types expose exactly three element fields through Deref (a fourth field would be a public, safe route to
+/// the unused lane) and their element-wise views have the size of three elements.
+fn surface_shape(mon: &mut Monitor) {
+    use glam::{Affine3A, BVec3A, Mat3A, Vec3A};
+    if let Some(mut c) = mon.begin("Vec3A / Mat3A / Affine3A", "public views expose three elements per column") {
+        let v = Vec3A::new(1.0, 2.0, 3.0);
+        let checks: Vec<(&'static str, usize, usize)> = vec![
+            ("size_of_val(&*Vec3A) (Deref target)", core::mem::size_of_val(&*v), 12),
+            ("Vec3A::to_array().len()", v.to_array().len(), 3),
+            ("AsRef<[f32; 3]> of Vec3A", { let a: &[f32; 3] = v.as_ref(); a.len() }, 3),
+            ("Mat3A::to_cols_array().len()", Mat3A::IDENTITY.to_cols_array().len(), 9),
+            ("Affine3A::to_cols_array().len()", Affine3A::IDENTITY.to_cols_array().len(), 12),
+            ("BVec3A -> [bool; 3]", <[bool; 3]>::from(BVec3A::TRUE).len(), 3),
+        ];
+        for (nm, got, want) in checks {
+            c.event(vcommon::rng::hash_str(nm), true);
+            if got != want {
+                c.violation("surface_shape", &[nm], nm.into(), format!("{}", got), format!("{}", want), "a public view of a padded type must not include the unused lane".into());
+            }
+        }
+        c.sample("Deref target of Vec3A is 12 bytes (x, y, z), array / slice views have 3, 9, 12 elements".into());
+        mon.end(c);
+    }
+}
+
 pub fn run(mon: &mut Monitor, args: &Args) {
     let miri = args.mode.as_deref() == Some("miri");
     let reg: Vec<Entry> = registry().into_iter().filter(|e| e.hidden).collect();
@@ -36,6 +61,7 @@ pub fn run(mon: &mut Monitor, args: &Args) {
     if !miri {
         canaries(mon);
     }
+    surface_shape(mon);
     let inputs = if miri { 1 } else { mon.n(400, 6000) };
     single_calls(mon, &reg, inputs, miri);
     if !miri {
